@@ -3,62 +3,137 @@
 (* Crash/recovery contract of the node's persistence (property C09).       *)
 (* A scenario is the ordered list of durable steps that one operation      *)
 (* (block acceptance, fork block, reorg, header batch, compaction, ...)    *)
-(* performs; the lists are CONSTANTS extracted from the real run through   *)
-(* the cfg(grin_verif) crash points (file truncate / append / replace,     *)
-(* temp-file rename, LMDB commit).  The process may die before any step.   *)
+(* performs.  The lists are CONSTANTS extracted from the real run, in two  *)
+(* layers recorded from the same execution:                                *)
+(*   hook layer    - the cfg(grin_verif) crash points (file truncate /     *)
+(*                   append / replace, temp-file rename, LMDB commit);     *)
+(*   syscall layer - every libc persistence call on a file of the chain    *)
+(*                   directory (write, pwrite, writev, ftruncate, rename,  *)
+(*                   unlink, creating / truncating open, fsync, ...),      *)
+(*                   recorded by an LD_PRELOAD interposer, i.e. independent*)
+(*                   of where the hooks sit;                               *)
+(* hookpos ties them: hookpos[j] = number of syscall-layer steps executed  *)
+(* before hook step j.  The process may die before any step of either      *)
+(* layer, and in the middle of a data write (torn write).                  *)
 (* Recover's post-condition IS the property: the directory opens, the head *)
 (* is a block of the previously accepted chain (old head, new head or an   *)
-(* ancestor), full validation passes; Redeliver converges to the state of  *)
-(* the never-interrupted node.                                             *)
+(* ancestor), full validation passes, the header chain state (header_head, *)
+(* header MMR, height index) is that of an accepted header chain;          *)
+(* Redeliver converges to the state of the never-interrupted node.         *)
 (***************************************************************************)
 EXTENDS Naturals, Sequences, FiniteSets
 
-CONSTANT Scenarios   \* Seq([name: STRING, steps: Seq([l: STRING, file: BOOLEAN, top: BOOLEAN])])
+CONSTANT Scenarios
+\* Seq([name    : STRING,
+\*      steps   : Seq([l: STRING, file: BOOLEAN, top: BOOLEAN]),                      hook layer
+\*      sys     : Seq([l: STRING, call: STRING, path: STRING, bytes: Nat,             syscall layer
+\*                     mut: BOOLEAN, file: BOOLEAN, top: BOOLEAN, tearable: BOOLEAN]),
+\*      hookpos : Seq(Nat),
+\*      hookmode: {"all","sample"}, sysmode: {"all","sample"}, tornmode: {"all","sample","none"}])
+\*  sys[i].mut      the call changes what a process reopening the directory can observe (a sync does not,
+\*                  nor does a truncate to the current length): only those are distinct crash states
+\*  sys[i].file     mut, on a file other than the LMDB data file
+\*  sys[i].top      the write of the LMDB meta page: the instant a top-level commit is published
+\*  sys[i].tearable a data write of >= 2 bytes to a file other than the LMDB data file
 
 VARIABLES sc,      \* index of the scenario being executed
-          done,    \* number of durable steps executed
+          layer,   \* "hook" | "sys": the step list being walked
+          done,    \* number of durable steps of that layer executed
+          torn,    \* the process died in the middle of step done+1 (half of its bytes written)
           phase,   \* "run" | "complete" | "crashed" | "recovered" | "redelivered"
           out      \* outcome observed after recovery
-vars == <<sc, done, phase, out>>
+vars == <<sc, layer, done, torn, phase, out>>
 
 Steps(s) == Scenarios[s].steps
-NoOut == [opened |-> FALSE, head_on_chain |-> FALSE, valid |-> FALSE, input_converged |-> FALSE, converged |-> FALSE]
+Sys(s) == Scenarios[s].sys
+Lay(s, ly) == IF ly = "hook" THEN Steps(s) ELSE Sys(s)
+NoOut == [opened |-> FALSE, head_on_chain |-> FALSE, valid |-> FALSE, header_ok |-> FALSE,
+          input_converged |-> FALSE, converged |-> FALSE]
+Outcomes == [opened : BOOLEAN, head_on_chain : BOOLEAN, valid : BOOLEAN, header_ok : BOOLEAN,
+             input_converged : {FALSE}, converged : {FALSE}]
 
 \* what the property allows after a crash
-RecoverOK(o) == o.opened /\ o.head_on_chain /\ o.valid
+RecoverOK(o) == o.opened /\ o.head_on_chain /\ o.valid /\ o.header_ok
 \* re-delivering the interrupted input alone converges (input_converged), and so does re-delivering
-\* everything above the recovered head followed by the input (converged)
+\* everything above the recovered head followed by the input (converged); both compare body head, the
+\* txhashset roots, header_head, the header MMR root and the height index with the uninterrupted node
 RedeliverOK(o) == o.input_converged /\ o.converged
 
-Init == /\ sc \in 1..Len(Scenarios) /\ done = 0 /\ phase = "run" /\ out = NoOut
+-----------------------------------------------------------------------------
+\* the two layers
+SetMax(S) == CHOOSE x \in S : \A y \in S : y <= x
+\* (operators take the step list as an argument / bind it once with LET: the lists are read from a file
+\*  by the MC / trace modules, and a bound value is evaluated once)
+MutBeforeIn(y, n) == Cardinality({i \in 1..n : y[i].mut})        \* mutating calls among the first n
+MutBefore(s, n) == MutBeforeIn(Sys(s), n)
+\* crash state = number of mutating calls executed; two crash points with equal state leave the same directory
+SysState(s, at) == MutBefore(s, at - 1)                           \* killed before syscall step `at`
+HookState(s, j) == LET S == Scenarios[s] IN MutBeforeIn(S.sys, S.hookpos[j])   \* killed at hook step j
+\* the syscall-layer crash points: before every mutating call, and after the last one
+SysCrashPointsIn(y) == {i \in 1..Len(y) : y[i].mut} \cup {Len(y) + 1}
+SysCrashPoints(s) == SysCrashPointsIn(Sys(s))
+TornPointsIn(y) == {i \in 1..Len(y) : y[i].tearable}
+TornPoints(s) == TornPointsIn(Sys(s))
+\* the hook step that opens the window a syscall-layer crash point lies in (0: before the first hook)
+OpenHookIn(hp, at) == LET J == {j \in 1..Len(hp) : hp[j] <= at - 1} IN IF J = {} THEN 0 ELSE SetMax(J)
+OpenHook(s, at) == OpenHookIn(Scenarios[s].hookpos, at)
 
-Step == /\ phase = "run" /\ done < Len(Steps(sc))
-        /\ done' = done + 1 /\ UNCHANGED <<sc, phase, out>>
-Complete == /\ phase = "run" /\ done = Len(Steps(sc))
-            /\ phase' = "complete" /\ UNCHANGED <<sc, done, out>>
+Init == /\ sc \in 1..Len(Scenarios) /\ layer \in {"hook", "sys"} /\ done = 0 /\ torn = FALSE
+        /\ phase = "run" /\ out = NoOut
+
+Step == /\ phase = "run" /\ done < Len(Lay(sc, layer))
+        /\ done' = done + 1 /\ UNCHANGED <<sc, layer, torn, phase, out>>
+Complete == /\ phase = "run" /\ done = Len(Lay(sc, layer))
+            /\ phase' = "complete" /\ UNCHANGED <<sc, layer, done, torn, out>>
+\* death before the next step (in the syscall layer only states that differ are distinguished)
 Crash == /\ phase = "run"
-         /\ phase' = "crashed" /\ UNCHANGED <<sc, done, out>>
+         /\ layer = "sys" => LET y == Sys(sc) IN IF done = Len(y) THEN TRUE ELSE y[done + 1].mut
+         /\ phase' = "crashed" /\ UNCHANGED <<sc, layer, done, torn, out>>
+\* death in the middle of a data write: half of the bytes of step done+1 reached the file
+CrashTorn == /\ phase = "run" /\ layer = "sys"
+             /\ LET y == Sys(sc) IN IF done < Len(y) THEN y[done + 1].tearable ELSE FALSE
+             /\ torn' = TRUE /\ phase' = "crashed" /\ UNCHANGED <<sc, layer, done, out>>
 Recover(o) == /\ phase \in {"crashed", "complete"}
               /\ RecoverOK(o)
-              /\ out' = o /\ phase' = "recovered" /\ UNCHANGED <<sc, done>>
+              /\ out' = o /\ phase' = "recovered" /\ UNCHANGED <<sc, layer, done, torn>>
 Redeliver == /\ phase = "recovered"
              /\ out' = [out EXCEPT !.converged = TRUE, !.input_converged = TRUE]
-             /\ phase' = "redelivered" /\ UNCHANGED <<sc, done>>
+             /\ phase' = "redelivered" /\ UNCHANGED <<sc, layer, done, torn>>
 
-Next == Step \/ Complete \/ Crash \/ Redeliver
-        \/ \E o \in [opened : BOOLEAN, head_on_chain : BOOLEAN, valid : BOOLEAN, input_converged : {FALSE}, converged : {FALSE}] : Recover(o)
+Next == Step \/ Complete \/ Crash \/ CrashTorn \/ Redeliver
+        \/ \E o \in Outcomes : Recover(o)
 Spec == Init /\ [][Next]_vars
 
 -----------------------------------------------------------------------------
 \* Every file step of an operation precedes an LMDB top-level commit that publishes it:
 \* a node that commits the database batch before its MMR files are on disk violates this
-\* without a single crash being run.
-\* (the step list is bound once per evaluation: Scenarios is read from a file by the MC / trace modules)
-WriteOrder == LET st == Steps(sc) IN
-              \A i \in 1..Len(st) : st[i].file => \E j \in (i+1)..Len(st) : st[j].top
+\* without a single crash being run.  Stated on both layers (in the syscall layer the publishing
+\* instant is the write of the LMDB meta page).
+\* (the step lists are bound once per evaluation: Scenarios is read from a file by the MC / trace modules)
+WriteOrderOf(st) == \A i \in 1..Len(st) : st[i].file => \E j \in (i+1)..Len(st) : st[j].top
+\* (these depend on the scenario only: decided once per scenario, in its first state)
+First == done = 0 /\ phase = "run" /\ layer = "hook"
+WriteOrder == First => WriteOrderOf(Steps(sc))
+SysWriteOrder == First => WriteOrderOf(Sys(sc))
 \* an operation that writes anything ends by publishing it
-EndsWithCommit == LET st == Steps(sc) IN Len(st) > 0 => st[Len(st)].l = "lmdb.commit.after top"
+EndsWithCommit == First => LET st == Steps(sc) IN Len(st) > 0 => st[Len(st)].l = "lmdb.commit.after top"
+SysEndsWithCommit == First => LET y == Sys(sc)
+                                   M == {i \in 1..Len(y) : y[i].mut} IN M # {} => y[SetMax(M)].top
+\* the two recordings describe one execution: one position per hook step, in order, inside the syscall list;
+\* every meta-page write lies inside a publishing commit of the hook layer ("before top" .. "after top"),
+\* and such a commit publishes at most once
+LayersAgree == First => LET S == Scenarios[sc] IN
+               /\ Len(S.hookpos) = Len(S.steps)
+               /\ \A j \in 1..Len(S.hookpos) : /\ S.hookpos[j] \in 0..Len(S.sys)
+                                               /\ j > 1 => S.hookpos[j-1] <= S.hookpos[j]
+               /\ \A j \in 1..Len(S.steps) : S.steps[j].top =>
+                     /\ j < Len(S.steps)
+                     /\ Cardinality({i \in (S.hookpos[j]+1)..S.hookpos[j+1] : S.sys[i].top}) <= 1
+               /\ \A i \in 1..Len(S.sys) : S.sys[i].top =>
+                     \E j \in 1..(Len(S.steps)-1) : S.steps[j].top /\ S.hookpos[j] < i /\ i <= S.hookpos[j+1]
 \* every crash prefix is recoverable by the contract (the contract is satisfiable)
 Recoverable == phase \in {"recovered", "redelivered"} => RecoverOK(out)
-TypeOK == done \in 0..Len(Steps(sc)) /\ phase \in {"run", "complete", "crashed", "recovered", "redelivered"}
+TypeOK == /\ done \in 0..Len(Lay(sc, layer)) /\ layer \in {"hook", "sys"} /\ torn \in BOOLEAN
+          /\ phase \in {"run", "complete", "crashed", "recovered", "redelivered"}
+          /\ torn => layer = "sys" /\ LET y == Sys(sc) IN IF done < Len(y) THEN y[done + 1].tearable ELSE FALSE
 =============================================================================
